@@ -5,6 +5,7 @@ pub mod c01;
 pub mod c02;
 pub mod c03;
 pub mod c04;
+pub mod c04b;
 pub mod c05;
 pub mod c06;
 pub mod c07;
